@@ -147,7 +147,7 @@ def analyse(run: Any, expects: Dict[tuple, Expect], retire_probe: bool = True) -
             toks[e[1]] = ExecAnalysis(run, e[1], opkey, expects.get(opkey) if opkey else None, e[4])
             toks[e[1]].events.append((seq, e))
         elif k in ("submit", "dispatch_async", "start", "enter", "body", "exit", "wait", "wait_ret", "retire",
-                   "exec_end", "cancelled", "audit_block", "audit_loopblock", "pool_starved"):
+                   "exec_end", "cancelled", "audit_block", "audit_loopblock", "pool_starved", "fault"):
             t = e[1]
             if t in toks:
                 toks[t].events.append((seq, e))
@@ -537,9 +537,11 @@ def _analyse_exec(run: Any, ea: ExecAnalysis, retire_probe: bool, aborted: bool,
         for m in in_graph:
             if m in dispatched or m in retired:
                 continue
-            if m in expected_deact and not retire_probe:
-                if not possible:
-                    continue
+            if m in expected_deact and not possible:
+                # a deactivated node is never *started*; when (and through which internal call) the scheduler prunes it is
+                # not part of any property, so it is never counted as a definitely ready candidate (retire events are used
+                # as positive information only: a pruned dependency no longer holds its successors back)
+                continue
             ok = True
             for d in deps.get(m, ()):
                 if d not in in_graph:
@@ -705,6 +707,10 @@ def _analyse_exec(run: Any, ea: ExecAnalysis, retire_probe: bool, aborted: bool,
                 own_threads = [n for n in dispatched if n in attrs and attrs[n]["res"] == "thread" and n not in exit_seq]
                 V.append(viol("loop_blocked_candidate", f"loop thread parked in blocking {e[2]}", op=opkey, tok=tok, seq=seq,
                               own_threads=own_threads, part=e[3]))
+        elif k == "fault":
+            # ground truth: the node function raised (whatever the layers above it make of the exception)
+            if e[2] is not None:
+                failed_nodes.add(e[2])
         elif k == "pool_starved":
             _, _, nids, workers, running = e
             if workers < mc and running < mc:
